@@ -378,17 +378,35 @@ def try_equiv_validates(facts):
                              "exception and is not covered by this clause)")
     for b in o.need_fn(facts, "unionfind::UnionFind::try_equiv"):
         n = 0
-        for i, j, st in b.stmts():
-            rv = st["rv"]
-            if not (st["lhs"]["l"] == 0 and not st["lhs"]["p"] and rv["k"] == "agg" and rv.get("variant") == "Ok"):
-                continue
-            n += 1
+
+        def looked_up(bb, blk):
             args = set()
-            for (e, truth, src) in dom_atoms(b, i):
+            for (e, truth, src) in dom_atoms(bb, blk):
                 if isinstance(e, tuple) and e[0] == "discr" and has_call(e[1], ("try_find", "try_find_mut")):
                     for s in walk_expr(e[1]):
                         if isinstance(s, tuple) and s[0] == "call" and last_seg(s[1]["path"]) in ("try_find", "try_find_mut") and len(s[2]) > 1:
                             args |= {x for x in leaves(s[2][1]) if x[0] == "arg"}
+            return args
+        sites = []
+        for i, j, st in b.stmts():
+            rv = st["rv"]
+            if st["lhs"]["l"] == 0 and not st["lhs"]["p"] and rv["k"] == "agg" and rv.get("variant") == "Ok":
+                sites.append((st["line"], looked_up(b, i)))
+        # an Ok built in a closure handed to map / map_or / and_then on a lookup: the closure runs only when that lookup succeeded
+        for cb in facts.with_closures(b)[1:]:
+            if not any(st["rv"]["k"] == "agg" and st["rv"].get("variant") == "Ok" and st["lhs"]["l"] == 0 for _, _, st in cb.stmts()):
+                continue
+            for i, t in b.calls():
+                if last_seg(t["f"]["path"]) in ("map", "map_or", "map_or_else", "and_then") and any(
+                        isinstance(strip_casts(b.expr(a, 3)), tuple) and strip_casts(b.expr(a, 3))[0] == "agg" and strip_casts(b.expr(a, 3))[1] == cb.path for a in t["args"][1:]):
+                    args = looked_up(b, i)
+                    for s in walk_expr(b.expr(t["args"][0], 8)):
+                        if isinstance(s, tuple) and s[0] == "call" and last_seg(s[1]["path"]) in ("try_find", "try_find_mut") and len(s[2]) > 1:
+                            args |= {x for x in leaves(s[2][1]) if x[0] == "arg"}
+                    sites.append((t["line"], args))
+        for (line, args) in sites:
+            n += 1
+            st = {"line": line}
             ok = ("arg", 2) in args and ("arg", 3) in args
             o.check(b, "ok-exit#%d" % n, st["line"], ok, "both arguments looked up (bounds-checked) before Ok",
                     "try_equiv returns Ok on a path on which not both arguments passed the bounds-checked lookup (checked: %s): try_equiv(x, x) with x out of range "
